@@ -1,4 +1,4 @@
-"""Catalogue for C14 (reproducible output): the two mechanisms that are encodable."""
+"""Catalogue for C14 (reproducible output): the mechanisms that are encodable (file identifier, sort keys of pointer-ordered containers)."""
 from cat.common import *
 from cat.c19 import _MAIN_TUS, _LOOPS
 
@@ -38,10 +38,22 @@ HARNESSES += [
                   'classes NameTable, SlotTable, NameTable::Entry, SlotTable::Entry built with the real constructors under the global scope'),
 ]
 
+HARNESSES += [
+    dict(id='c14_overload_order', property='C14', src='c14_remap_order.cxx', entry='harness_c14_overload_order',
+         tus=['src/interrogate/interfaceMakerPythonNative.cxx'], cut=['_Z13get_type_sortP7CPPType'],
+         cbmc_flags=['--max-field-sensitivity-array-size', '200'],
+         desc='RemapCompareLess (sort key of the -python-native dispatch order; the sorted vector starts in address order of a '
+              'std::set<FunctionRemap *>) is a total order on distinct overloads',
+         domain='2 overloads with distinct signatures, symbolic const flags, every combination of 0..PMAX parameters (concrete loop), one '
+                'symbolic type-sort value per parameter slot (get_type_sort is an uninterpreted table: ties such as f(A *) / f(B *) included)',
+         oracle='exactly one of less(a,b), less(b,a) holds',
+         bounds=dict(quick=dict(defs=dict(PMAX=2), unwind=24, unwindset={'ll_memcmp.0': 12, 'll_strlen.0': 12, 'll_memcpy.0': 12}, cap=300))),
+]
+
 PROPERTY_INFO = {
     'C14': dict(level='model_checking',
                 explanation='bounded symbolic execution (CBMC) of the real main(): clock and environment are symbolic variables',
-                outside='byte-identity of whole runs across ASLR, heap layout, environment size, locale, TZ (would need the allocator as a symbolic input; a counterexample could not be replayed against the real binary); ordering of pointer-keyed containers other than the external-import table, whose sort key is checked to be tie-free',
+                outside='byte-identity of whole runs across ASLR, heap layout, environment size, locale, TZ (would need the allocator as a symbolic input; a counterexample could not be replayed against the real binary); ordering of pointer-keyed containers other than the external-import table and the overload sets of the -python-native dispatch, whose sort keys are checked to be tie-free',
                 assumptions=['strtol modelled for up to 3 digits; parser/builder/database entry points are stand-ins']),
 }
 NOT_APPLICABLE = {}
